@@ -78,13 +78,9 @@ func rulePXNilGuard(c *Ctx) []Obligation {
 	std := c.stdOpaque(c.role("renderItems"), c.role("isNullItems"))
 	hasCaller := map[*ssa.Function]bool{}
 	for _, g := range c.allFuncs(c.Jen) {
-		for _, b := range g.Blocks {
-			for _, in := range b.Instrs {
-				if ci, ok := in.(ssa.CallInstruction); ok {
-					if sc := ci.Common().StaticCallee(); sc != nil && sc != g {
-						hasCaller[sc] = true
-					}
-				}
+		for _, h := range c.callersIncludingValueUses(g) {
+			if h != g {
+				hasCaller[g] = true
 			}
 		}
 	}
